@@ -351,16 +351,24 @@ def build_props(pid, jobs=None):
 # ----------------------------------------------------------------- findings
 def load_findings(pid):
     """Open entries for pid from known_findings.json (the committed list) and, while a
-    property is being built in its own worktree, from findings/<pid>.json."""
+    property is being built in its own worktree, from findings/<pid>.json.  An entry
+    marked fixed in known_findings.json suppresses nothing, whatever findings/ says."""
     out = {}
+    fixed = set()
     for p in (os.path.join(VERIF, 'known_findings.json'), os.path.join(VERIF, 'findings', pid + '.json')):
         try:
             data = json.load(open(p))
         except IOError:
             continue
         for e in data.get('findings', []):
-            if e.get('property') == pid and e.get('status') == 'open':
+            if e.get('property') != pid:
+                continue
+            if e.get('status') == 'fixed':
+                fixed.add(e['key'])
+            elif e.get('status') == 'open':
                 out[e['key']] = e
+    for k in fixed:
+        out.pop(k, None)
     return out
 
 
@@ -403,3 +411,54 @@ def setup_impl_path():
     import odl  # noqa
     assert os.path.abspath(os.path.dirname(odl.__file__)) == os.path.join(os.path.abspath(REPO), 'odl'), \
         'odl imported from %s, not from %s' % (odl.__file__, REPO)
+
+
+# ------------------------------------------------------ anchored-function coverage
+class LineTrace(object):
+    """Line coverage of given functions while a block runs (sys.settrace; no source hooks).
+
+        with C.LineTrace([finite_diff, Gradient._call]) as lt: ...run the implementation...
+        lt.report() -> {'odl/discr/diff_ops.py:finite_diff': {'executed': 118, 'of': 121, 'missed': [..]}, ...}
+    """
+
+    def __init__(self, funcs):
+        import dis
+        self.codes = {}
+        for f in funcs:
+            code = getattr(f, '__code__', None) or getattr(getattr(f, '__func__', None), '__code__', None)
+            if code is None:
+                continue
+            lines = set(l for _, l in dis.findlinestarts(code) if l is not None)
+            for c in code.co_consts:            # nested functions / comprehensions
+                if hasattr(c, 'co_code'):
+                    lines |= set(l for _, l in dis.findlinestarts(c) if l is not None)
+            self.codes[code] = (f, lines)
+        self.files = set(c.co_filename for c in self.codes)
+        self.hit = {}
+
+    def _local(self, frame, event, arg):
+        if event == 'line':
+            self.hit.setdefault(frame.f_code.co_filename, set()).add(frame.f_lineno)
+        return self._local
+
+    def _global(self, frame, event, arg):
+        if frame.f_code.co_filename in self.files:
+            return self._local
+        return None
+
+    def __enter__(self):
+        self._old = sys.gettrace()
+        sys.settrace(self._global)
+        return self
+
+    def __exit__(self, *a):
+        sys.settrace(self._old)
+
+    def report(self):
+        out = {}
+        for code, (f, lines) in self.codes.items():
+            hit = self.hit.get(code.co_filename, set()) & lines
+            rel = os.path.relpath(code.co_filename, REPO)
+            out['%s:%s' % (rel, getattr(f, '__qualname__', code.co_name))] = {
+                'executed': len(hit), 'of': len(lines), 'missed': sorted(lines - hit)[:40]}
+        return out
